@@ -169,9 +169,19 @@ class _OrbitCorrectionService(_DynamicsServiceBase):
         x_full = np.asarray(payload.x_full, dtype=float)
         half_period = float(payload.half_period)
 
-        self.domain_obj.dynamics.reset()
-        self.domain_obj.dynamics._initial_state = x_full
-        self.domain_obj.dynamics.period = 2.0 * half_period
+        dynamics = self.domain_obj.dynamics
+        old_state = dynamics._initial_state
+        state_changed = old_state is None or not np.array_equal(np.asarray(old_state, dtype=float), x_full)
+
+        dynamics.reset()
+        dynamics._initial_state = x_full
+        if state_changed:
+            # The trajectory and the stability data describe the previous state,
+            # whatever the period: the period setter below only drops them when
+            # the period itself changes.
+            dynamics._trajectory = None
+            dynamics._stability_info = None
+        dynamics.period = 2.0 * half_period
 
         return payload
 
